@@ -60,6 +60,7 @@ def run(ctx: RuleContext):
     # with its frame pushed leaves it on top of its caller's: the caller's return value is checked against the generator's bindings) --
     # C05's balance / no-suspension clauses
     ctx.reuse("C02.8", _frame_discipline, ctx, r)
+    ctx.sub(check_defaults_applied, ctx, r, "C02.9")
 
 
 def _frame_discipline(ctx, r):
@@ -335,3 +336,50 @@ def _check_dataclass_skip_is_own(ctx, jt, wrap_stmt):
                             construct=f"dataclass skip decided by inherited lookup {bad}")
     if not any(fd.rule == "C02.7" for fd in ctx.findings):
         ctx.ok("C02.7", jt.qualname, f"{len(guards)} guard(s) before the __init__ wrapping read only the class's own __init__ ({n_atoms} lookups on fn)")
+
+
+# ------------------------------------------------------------------------ C02.9
+def check_defaults_applied(ctx, r, tag="C02.9"):
+    """The argument table of a call (what `{name}` axes and the error messages read) is `signature.bind(..)` *with the defaults applied*:
+    `BoundArguments.apply_defaults()` fills in omitted parameters -- including `()` for an absent `*args` and `{}` for an absent `**kwargs`.
+    A wrapper that hands `bound.arguments` to the push without it leaves those names undefined: `"{len(xs)}"` then raises NameError ->
+    AnnotationError on a well-typed call.  A hand-written merge of the defaults is not interpreted (no verdict)."""
+    m = ctx.model
+    n = 0
+    for w in r.wrappers()["wraps"]:
+        binds = [c for c in m.calls_in(w) if isinstance(c.func, ast.Attribute) and c.func.attr in ("bind", "bind_partial")]
+        pushes = [c for c in m.calls_in(w) if m.resolve_call(w, c).kind == "func" and m.resolve_call(w, c).target.qualname == r.push.qualname]
+        if not binds or not pushes:
+            continue
+        ctx.saw(w)
+        for b in binds:
+            n += 1
+            var = None
+            for st in walk_scope(w.node):
+                if isinstance(st, ast.Assign) and st.value is b and len(st.targets) == 1 and isinstance(st.targets[0], ast.Name):
+                    var = st.targets[0].id
+            if var is None:
+                raise AnalysisError(f"{tag}: the result of `{short(b, 40)}` in {w.qualname} is not kept in a local; whether defaults are applied is not followed")
+            # order of evaluation by a pre-order walk of the function (line numbers are unreliable after normalisation)
+            order = {}
+
+            def _pre(n_):
+                order[id(n_)] = len(order)
+                for c_ in ast.iter_child_nodes(n_):
+                    _pre(c_)
+
+            _pre(w.node)
+            first_push = min(order.get(id(p_), 10 ** 9) for p_ in pushes)
+            applied = [c for c in m.calls_in(w) if isinstance(c.func, ast.Attribute) and c.func.attr == "apply_defaults" and norm(c.func.value) == var
+                       and order.get(id(b), -1) <= order.get(id(c), -1) <= first_push]
+            if applied:
+                ctx.ok(tag, w.qualname, f"`{var}.apply_defaults()` between the bind and the push")
+                continue
+            manual = [c for c in m.calls_in(w) if isinstance(c.func, ast.Attribute) and c.func.attr in ("setdefault", "update") and norm(c.func.value).startswith(var + ".arguments")]
+            if manual:
+                raise AnalysisError(f"{tag}: {w.qualname} merges defaults into `{var}.arguments` by hand (`{short(manual[0], 50)}`) instead of `{var}.apply_defaults()`; whether every "
+                                    "omitted parameter (an absent *args -> (), an absent **kwargs -> {}) is filled in is not decided")
+            ctx.bad(tag, w, b, f"`{var}.apply_defaults()` is not called between `{short(b, 40)}` and the push: omitted parameters (defaults, an absent *args / **kwargs) are missing from the "
+                    "argument table, so a `{name}` axis that refers to one raises NameError -> AnnotationError on a well-typed call", construct=f"{var}.apply_defaults() missing")
+    ctx.counters["bind_sites_with_push"] = n
+    ctx.floor(tag, "bind_sites_with_push", 2)
